@@ -38,9 +38,7 @@ func (f *clientHeartBeatProcessor) Process(ctx context.Context, rpcMessage messa
 			log.Debug("received PONG from {}", ctx)
 		}
 	}
-	msgFuture := getty.GetGettyRemotingClient().GetMessageFuture(rpcMessage.ID)
-	if msgFuture != nil {
-		getty.GetGettyRemotingClient().RemoveMessageFuture(rpcMessage.ID)
-	}
+	// heartbeats do not register message futures, and their ids come from a counter of their own:
+	// a future found under this id belongs to an unrelated in-flight request and must stay.
 	return nil
 }
